@@ -210,6 +210,11 @@ def call_builtin(I, name, args, kwargs, node, frame):
             return VReal(_fn("float_of_str", z3.StringSort(), z3.RealSort())(v.t))
         if isinstance(v, VNone):
             raise E.PyExc(VExc("TypeError"), "float(None)")
+        if isinstance(v, VAny):
+            k = run.choose([("ok", None), ("ValueError", None), ("TypeError", None)], "float(opaque)")
+            if k:
+                raise E.PyExc(VExc(["ValueError", "TypeError"][k - 1]), "float()")
+            return VReal(_fn("float_of_any", AnySort, z3.RealSort())(v.t))
     if name == "bool":
         return VBool(E.simp(I.truthy(args[0]))) if args else VBool(False)
     if name == "str":
@@ -594,6 +599,15 @@ def dict_method(I, ref, r, name, args, kwargs):
             src = args[0]
             sr = run.rec(src.oid)
             if not sr.concrete:
+                if not r.concrete and r.val is not None and sr.val is not None and r.dom.sort() == sr.dom.sort() \
+                        and r.val.sort() == sr.val.sort() and not sr.over:
+                    k = z3.Const("k!upd", r.dom.sort().domain())
+                    r.val = z3.Lambda([k], z3.If(z3.Select(sr.dom, k), z3.Select(sr.val, k), z3.Select(r.val, k)))
+                    r.dom = z3.Lambda([k], z3.Or(z3.Select(r.dom, k), z3.Select(sr.dom, k)))
+                    nsz = z3.Int(run.fresh_name("size!upd"))
+                    run.assume(z3.And(nsz >= r.size, nsz >= sr.size, nsz <= r.size + sr.size))
+                    r.size = nsz
+                    return NONE
                 raise E.Unsupported("update from symbolic dict")
             for k, v in sr.items.values():
                 I.dict_set(ref, k, v)
